@@ -125,7 +125,7 @@ func CheckWorkConservation(w *World, rec *CycleRecord) ([]Finding, ProgressFacts
 	}
 	for _, pv := range rec.After.Pods {
 		if wl := wls[pv.Workload]; wl != nil && pv.Active() && !pv.Reservation {
-			ch := Charge(pv.Req, caps[pv.Node])
+			ch := ChargeUpper(pv.Req, caps[pv.Node])
 			ch[RGPU] += draGPUs(pv)
 			charge(wl, ch)
 		}
@@ -133,7 +133,7 @@ func CheckWorkConservation(w *World, rec *CycleRecord) ([]Finding, ProgressFacts
 	for _, c := range rec.Calls {
 		if c.Kind == "pipeline" && c.Err == "" {
 			if pv := rec.Before.ByName[c.Pod]; pv != nil && wls[pv.Workload] != nil {
-				ch := Charge(pv.Req, caps[c.Node])
+				ch := ChargeUpper(pv.Req, caps[c.Node])
 				ch[RGPU] += draGPUs(pv)
 				charge(wls[pv.Workload], ch)
 			}
